@@ -107,7 +107,20 @@ def lyb_cases(cx):
     return cases
 
 
-GROUPS = {"utf8": utf8_cases, "hash": hash_cases, "iff": iff_cases, "ht": ht_cases, "lyb": lyb_cases}
+def print_cases(cx):
+    rng = cx.sub_rng("fn-print")
+    strs = [bytes([b]) for b in range(1, 256)] + [bytes(t) for t in itertools.product((0x09, 0x0A, 0x0D, 0x22, 0x26, 0x3C, 0x3E, 0x5C, 0x1F, 0x7F, 0x80, 0x41), repeat=2)]
+    for _ in range(cx.n(1200, 40000)):
+        strs.append(gen.valid_text(rng, 6) if rng.random() < 0.7 else bytes(rng.choice((9, 10, 13, 34, 38, 60, 62, 92, 1, 31, 127, 128, 255, 65)) for _ in range(rng.randrange(0, 9))))
+    cases = ["xmldump 0 N", "xmldump 1 N", "jsonprint N", "xmldump 0 -", "jsonprint -"]
+    for s in strs:
+        s = s.replace(b"\x00", b"")
+        cases.append("xmldump %d %s" % (rng.choice((0, 1, 1, 2, 255)), hexs(s)))
+        cases.append("jsonprint " + hexs(s))
+    return cases
+
+
+GROUPS = {"print": print_cases, "utf8": utf8_cases, "hash": hash_cases, "iff": iff_cases, "ht": ht_cases, "lyb": lyb_cases}
 
 
 def run_fn(cx, groups):
